@@ -1,25 +1,38 @@
-// extract-c06 reads wallet/createtx.go (go/ast, no type checking) and prints,
-// as one JSON object, two facts about the explicit input selection of
-// (*Wallet).txToOutputs (the loop `for _, outpoint := range selectedUtxos`):
+// extract-c06 reads the package in <repo>/wallet (go/ast, no type checking)
+// and prints, as one JSON object, two facts about the explicit input selection
+// of (*Wallet).txToOutputs (the loop over the caller's selected outpoints):
 //
 //	requires_eligible   every selected outpoint is looked up in the map built
 //	                    from findEligibleOutputs' result and a miss returns an
-//	                    error (always true when the program succeeds: any other
-//	                    shape is refused);
+//	                    error;
 //	rejects_duplicates  a second occurrence of an outpoint in the selection
 //	                    returns an error.
 //
 //	usage: extract-c06 <repo>
 //
-// Everything here is syntactic.  The program refuses (exit status 2, message
-// on stderr) every shape it does not understand instead of guessing.
+// Everything here is syntactic.  A shape that is not understood is never
+// guessed: the fact concerned is reported as {"ok": false, "why": ...} and
+// lib/extract_c06.py then determines it behaviourally (c06 -probe).  The
+// program itself only fails (exit status 2) when the package cannot be parsed
+// or txToOutputs does not exist.
 //
-// Shapes of a duplicate test that are recognised inside the loop body
-// (K = the range variable, M = the eligibility map, S = another map):
+// Shapes that are recognised:
 //
-//	A.  delete(M, K)                       after the lookup: a second lookup misses
-//	B.  if _, d := S[K]; d { return … }    together with   S[K] = …
-//	C.  if S[K] { return … }               together with   S[K] = true
+//   - the loop may live in txToOutputs itself or in a function / method of the
+//     same package that txToOutputs (transitively, depth <= 3) calls with the
+//     selection as an argument; the eligible outputs are then followed through
+//     the corresponding argument;
+//   - `for _, K := range SEL` and `for i := range SEL { K := SEL[i]; ... }`;
+//   - the lookup `e, ok := M[K]` followed by `if !ok { return ..., err }`, or
+//     `if e, ok := M[K]; !ok { return ..., err }`, or
+//     `if _, ok := M[K]; !ok { return ..., err }` with a later `M[K]` use;
+//   - M filled by `for _, v := range E { M[v.OutPoint] = v }` where E is the
+//     result of findEligibleOutputs (directly, or handed down as an argument);
+//   - duplicate tests inside the loop body (S = another map):
+//     A.  delete(M, K)                       after the lookup: a second lookup misses
+//     B.  if _, d := S[K]; d { return … }    together with   S[K] = …
+//     C.  if S[K] { return … }               together with   S[K] = true
+//     (map[OutPoint]struct{} and map[OutPoint]bool alike; any local names).
 package main
 
 import (
@@ -32,13 +45,22 @@ import (
 	"go/token"
 	"os"
 	"path/filepath"
+	"sort"
+	"strings"
 )
 
+type fact struct {
+	OK    bool   `json:"ok"`
+	Value bool   `json:"value"`
+	Why   string `json:"why"`
+}
+
 type result struct {
-	RequiresEligible  bool   `json:"requires_eligible"`
-	RejectsDuplicates bool   `json:"rejects_duplicates"`
+	RequiresEligible  fact   `json:"requires_eligible"`
+	RejectsDuplicates fact   `json:"rejects_duplicates"`
 	Form              string `json:"form"` // "none" | "delete-from-eligible-map" | "seen-set"
 	Loop              string `json:"loop"` // position of the loop
+	Func              string `json:"func"` // function holding the loop
 	Map               string `json:"map"`  // name of the eligibility map
 }
 
@@ -53,6 +75,11 @@ func show(n ast.Node) string {
 	var b bytes.Buffer
 	_ = printer.Fprint(&b, fset, n)
 	return b.String()
+}
+
+func pos(n ast.Node) string {
+	p := fset.Position(n.Pos())
+	return fmt.Sprintf("%s:%d", filepath.Base(p.Filename), p.Line)
 }
 
 func isIdent(e ast.Expr, name string) bool {
@@ -73,163 +100,269 @@ func indexOf(e ast.Expr, key string) (string, bool) {
 	return id.Name, true
 }
 
-// returnsError: the block ends by returning a call of fmt.Errorf / errors.New
-// (or any non-nil expression) as its only result.
+// returnsError: the block ends by returning, and the last result (the error
+// of the enclosing function) is not nil.
 func returnsError(b *ast.BlockStmt) bool {
 	if b == nil || len(b.List) == 0 {
 		return false
 	}
 	r, ok := b.List[len(b.List)-1].(*ast.ReturnStmt)
-	if !ok || len(r.Results) != 1 {
+	if !ok || len(r.Results) == 0 {
 		return false
 	}
-	return !isIdent(r.Results[0], "nil")
+	return !isIdent(r.Results[len(r.Results)-1], "nil")
 }
 
-func main() {
-	if len(os.Args) != 2 {
-		die("usage: extract-c06 <repo>")
-	}
-	path := filepath.Join(os.Args[1], "wallet", "createtx.go")
-	f, err := parser.ParseFile(fset, path, nil, 0)
-	if err != nil {
-		die("parse %s: %v", path, err)
-	}
-	var fn *ast.FuncDecl
-	for _, d := range f.Decls {
-		if fd, ok := d.(*ast.FuncDecl); ok && fd.Name.Name == "txToOutputs" && fd.Recv != nil {
-			fn = fd
+// ---- the package -------------------------------------------------------
+
+var funcs = map[string]*ast.FuncDecl{} // functions and methods by name
+
+func paramNames(fd *ast.FuncDecl) []string {
+	var out []string
+	for _, p := range fd.Type.Params.List {
+		if len(p.Names) == 0 {
+			out = append(out, "_")
+		}
+		for _, n := range p.Names {
+			out = append(out, n.Name)
 		}
 	}
-	if fn == nil {
-		die("%s: method txToOutputs not found", path)
+	return out
+}
+
+func calleeName(c *ast.CallExpr) string {
+	switch f := c.Fun.(type) {
+	case *ast.Ident:
+		return f.Name
+	case *ast.SelectorExpr:
+		return f.Sel.Name
 	}
-	// the parameter that carries the selection
-	selParam := ""
-	for _, p := range fn.Type.Params.List {
-		if show(p.Type) == "[]wire.OutPoint" {
-			if len(p.Names) != 1 || selParam != "" {
-				die("txToOutputs: expected exactly one []wire.OutPoint parameter")
-			}
-			selParam = p.Names[0].Name
+	return ""
+}
+
+// fromFind: within fd, is the identifier name assigned from a call of
+// findEligibleOutputs?
+func fromFind(fd *ast.FuncDecl, name string) bool {
+	found := false
+	ast.Inspect(fd.Body, func(n ast.Node) bool {
+		a, ok := n.(*ast.AssignStmt)
+		if !ok || len(a.Lhs) < 1 || len(a.Rhs) != 1 || !isIdent(a.Lhs[0], name) {
+			return true
 		}
-	}
-	if selParam == "" {
-		die("txToOutputs: no []wire.OutPoint parameter (explicit selection)")
-	}
+		if call, ok := a.Rhs[0].(*ast.CallExpr); ok && calleeName(call) == "findEligibleOutputs" {
+			found = true
+		}
+		return true
+	})
+	return found
+}
+
+// site is a function that ranges over the selection, with what is known about
+// where its eligible outputs come from.
+type site struct {
+	fd       *ast.FuncDecl
+	sel      string          // name of the selection in fd
+	eligible map[string]bool // identifiers of fd known to hold findEligibleOutputs' result
+	chain    []string
+}
+
+func rangesOver(fd *ast.FuncDecl, sel string) []*ast.RangeStmt {
 	var loops []*ast.RangeStmt
-	ast.Inspect(fn.Body, func(n ast.Node) bool {
-		if r, ok := n.(*ast.RangeStmt); ok && isIdent(r.X, selParam) {
+	ast.Inspect(fd.Body, func(n ast.Node) bool {
+		if r, ok := n.(*ast.RangeStmt); ok && isIdent(r.X, sel) {
 			loops = append(loops, r)
 		}
 		return true
 	})
-	if len(loops) != 1 {
-		die("txToOutputs: expected exactly one loop over %s, found %d", selParam, len(loops))
-	}
-	loop := loops[0]
-	key, ok := loop.Value.(*ast.Ident)
-	if !ok || key.Name == "_" {
-		die("%s: the loop over %s does not bind the outpoint", fset.Position(loop.Pos()), selParam)
-	}
-	K := key.Name
+	return loops
+}
 
-	res := result{Form: "none", Loop: fset.Position(loop.Pos()).String()}
-	var (
-		M         string // eligibility map
-		okVar     string // the comma-ok variable of the lookup
-		elemVar   string // the looked-up credit
-		sawLookup bool
-		sawMiss   bool
-		sawAppend bool
-		deleteM   bool
-		seenTest  = map[string]bool{} // S -> a test `S[K]` that returns an error was seen
-		seenSet   = map[string]bool{} // S -> an assignment S[K] = … was seen
-	)
-	for _, st := range loop.Body.List {
+// findSites follows the selection from fd into callees of the same package.
+func findSites(fd *ast.FuncDecl, sel string, elig map[string]bool, chain []string, depth int) []site {
+	var out []site
+	if len(rangesOver(fd, sel)) > 0 {
+		out = append(out, site{fd: fd, sel: sel, eligible: elig, chain: chain})
+	}
+	if depth == 0 {
+		return out
+	}
+	ast.Inspect(fd.Body, func(n ast.Node) bool {
+		call, ok := n.(*ast.CallExpr)
+		if !ok {
+			return true
+		}
+		callee := funcs[calleeName(call)]
+		if callee == nil || callee == fd || callee.Body == nil {
+			return true
+		}
+		names := paramNames(callee)
+		if len(names) != len(call.Args) {
+			return true
+		}
+		selIn := ""
+		eligIn := map[string]bool{}
+		for i, a := range call.Args {
+			id, ok := a.(*ast.Ident)
+			if !ok {
+				continue
+			}
+			if id.Name == sel {
+				selIn = names[i]
+			}
+			if elig[id.Name] {
+				eligIn[names[i]] = true
+			}
+		}
+		if selIn == "" {
+			return true
+		}
+		for k := range eligIn {
+			_ = k
+		}
+		// locals of the callee that are assigned from findEligibleOutputs count too
+		out = append(out, findSites(callee, selIn, eligIn, append(append([]string{}, chain...), callee.Name.Name), depth-1)...)
+		return true
+	})
+	return out
+}
+
+// ---- the loop ----------------------------------------------------------
+
+type loopInfo struct {
+	K         string
+	M         string
+	sawLookup bool
+	sawMiss   bool
+	sawAppend bool
+	deleteM   bool
+	seenTest  map[string]bool
+	seenSet   map[string]bool
+	unknown   []string // statements not understood
+}
+
+func analyseLoop(loop *ast.RangeStmt, sel string) loopInfo {
+	li := loopInfo{seenTest: map[string]bool{}, seenSet: map[string]bool{}}
+	body := loop.Body.List
+	if v, ok := loop.Value.(*ast.Ident); ok && v.Name != "_" {
+		li.K = v.Name
+	} else if k, ok := loop.Key.(*ast.Ident); ok && k.Name != "_" && len(body) > 0 {
+		// for i := range SEL { K := SEL[i]; ...
+		if a, ok := body[0].(*ast.AssignStmt); ok && a.Tok == token.DEFINE && len(a.Lhs) == 1 && len(a.Rhs) == 1 {
+			if ix, ok := a.Rhs[0].(*ast.IndexExpr); ok && isIdent(ix.X, sel) && isIdent(ix.Index, k.Name) {
+				if id, ok := a.Lhs[0].(*ast.Ident); ok {
+					li.K = id.Name
+					body = body[1:]
+				}
+			}
+		}
+	}
+	if li.K == "" {
+		li.unknown = append(li.unknown, pos(loop)+": the loop does not bind the outpoint")
+		return li
+	}
+	K := li.K
+	var okVar, elemVar string
+	for _, st := range body {
 		switch s := st.(type) {
 		case *ast.AssignStmt:
-			// e, ok := M[K]
-			if s.Tok == token.DEFINE && len(s.Lhs) == 2 && len(s.Rhs) == 1 {
-				if m, ok := indexOf(s.Rhs[0], K); ok && !sawLookup {
+			// e, ok := M[K]   (also with =)
+			if len(s.Lhs) == 2 && len(s.Rhs) == 1 {
+				if m, ok := indexOf(s.Rhs[0], K); ok && !li.sawLookup {
 					e, ok1 := s.Lhs[0].(*ast.Ident)
 					o, ok2 := s.Lhs[1].(*ast.Ident)
-					if !ok1 || !ok2 || e.Name == "_" || o.Name == "_" {
-						die("%s: lookup shape not recognised: %s", fset.Position(s.Pos()), show(s))
+					if ok1 && ok2 && o.Name != "_" {
+						li.M, elemVar, okVar, li.sawLookup = m, e.Name, o.Name, true
+						continue
 					}
-					M, elemVar, okVar, sawLookup = m, e.Name, o.Name, true
-					continue
 				}
 			}
-			// S[K] = …
 			if s.Tok == token.ASSIGN && len(s.Lhs) == 1 && len(s.Rhs) == 1 {
+				// S[K] = …
 				if m, ok := indexOf(s.Lhs[0], K); ok {
-					seenSet[m] = true
+					li.seenSet[m] = true
 					continue
 				}
-				// acc = append(acc, e)
+				// acc = append(acc, e)   or   acc = append(acc, M[K])
 				if call, ok := s.Rhs[0].(*ast.CallExpr); ok && isIdent(call.Fun, "append") &&
-					len(call.Args) == 2 && sawLookup && isIdent(call.Args[1], elemVar) &&
-					show(call.Args[0]) == show(s.Lhs[0]) {
+					len(call.Args) == 2 && li.sawLookup && show(call.Args[0]) == show(s.Lhs[0]) {
 
-					sawAppend = true
-					continue
+					if isIdent(call.Args[1], elemVar) && elemVar != "_" {
+						li.sawAppend = true
+						continue
+					}
+					if m, ok := indexOf(call.Args[1], K); ok && m == li.M {
+						li.sawAppend = true
+						continue
+					}
 				}
 			}
-			die("%s: statement in the selection loop not recognised: %s", fset.Position(s.Pos()), show(s))
+			li.unknown = append(li.unknown, pos(s)+": "+show(s))
 
 		case *ast.IfStmt:
 			if s.Else != nil {
-				die("%s: if/else in the selection loop not recognised", fset.Position(s.Pos()))
+				li.unknown = append(li.unknown, pos(s)+": if/else")
+				continue
 			}
 			// if !ok { return error }
 			if u, ok := s.Cond.(*ast.UnaryExpr); ok && s.Init == nil && u.Op == token.NOT &&
-				sawLookup && isIdent(u.X, okVar) {
+				li.sawLookup && isIdent(u.X, okVar) {
 
 				if !returnsError(s.Body) {
-					die("%s: a selected outpoint that is not eligible does not return an error", fset.Position(s.Pos()))
+					li.unknown = append(li.unknown, pos(s)+": a miss does not return an error")
+					continue
 				}
-				sawMiss = true
+				li.sawMiss = true
 				continue
 			}
-			// if _, d := S[K]; d { return error }
 			if a, ok := s.Init.(*ast.AssignStmt); ok && a.Tok == token.DEFINE && len(a.Lhs) == 2 && len(a.Rhs) == 1 {
-				if m, ok := indexOf(a.Rhs[0], K); ok && isIdent(a.Lhs[0], "_") {
-					if d, ok := a.Lhs[1].(*ast.Ident); ok && isIdent(s.Cond, d.Name) && returnsError(s.Body) {
-						seenTest[m] = true
+				if m, ok := indexOf(a.Rhs[0], K); ok {
+					d, okd := a.Lhs[1].(*ast.Ident)
+					// if e, ok := M[K]; !ok { return error }
+					if u, oku := s.Cond.(*ast.UnaryExpr); oku && okd && u.Op == token.NOT && isIdent(u.X, d.Name) &&
+						!li.sawLookup && returnsError(s.Body) {
+
+						e, _ := a.Lhs[0].(*ast.Ident)
+						li.M, li.sawLookup, li.sawMiss, okVar = m, true, true, d.Name
+						if e != nil {
+							elemVar = e.Name
+						}
+						continue
+					}
+					// if _, d := S[K]; d { return error }
+					if okd && isIdent(a.Lhs[0], "_") && isIdent(s.Cond, d.Name) && returnsError(s.Body) {
+						li.seenTest[m] = true
 						continue
 					}
 				}
 			}
 			// if S[K] { return error }
 			if m, ok := indexOf(s.Cond, K); ok && s.Init == nil && returnsError(s.Body) {
-				seenTest[m] = true
+				li.seenTest[m] = true
 				continue
 			}
-			die("%s: test in the selection loop not recognised: %s", fset.Position(s.Pos()), show(s.Cond))
+			li.unknown = append(li.unknown, pos(s)+": if "+show(s.Cond))
 
 		case *ast.ExprStmt:
 			// delete(M, K)
 			if call, ok := s.X.(*ast.CallExpr); ok && isIdent(call.Fun, "delete") && len(call.Args) == 2 &&
-				sawLookup && sawMiss && isIdent(call.Args[0], M) && isIdent(call.Args[1], K) {
+				li.sawLookup && li.sawMiss && isIdent(call.Args[0], li.M) && isIdent(call.Args[1], K) {
 
-				deleteM = true
+				li.deleteM = true
 				continue
 			}
-			die("%s: statement in the selection loop not recognised: %s", fset.Position(s.Pos()), show(s))
+			li.unknown = append(li.unknown, pos(s)+": "+show(s))
 
 		default:
-			die("%s: statement in the selection loop not recognised: %s", fset.Position(st.Pos()), show(st))
+			li.unknown = append(li.unknown, pos(st)+": "+strings.SplitN(show(st), "\n", 2)[0])
 		}
 	}
-	if !sawLookup || !sawMiss || !sawAppend {
-		die("%s: selection loop lacks lookup (%v), refusal of a miss (%v) or accumulation (%v)",
-			res.Loop, sawLookup, sawMiss, sawAppend)
-	}
-	// M must be filled from the eligible outputs: `M[e.OutPoint] = e` in a
-	// loop over the result of findEligibleOutputs.
-	filled := false
-	ast.Inspect(fn.Body, func(n ast.Node) bool {
+	return li
+}
+
+// filledFrom returns the identifier E of `for _, v := range E { M[v.OutPoint] = v }`.
+func filledFrom(fd *ast.FuncDecl, M string) string {
+	src := ""
+	ast.Inspect(fd.Body, func(n ast.Node) bool {
 		r, ok := n.(*ast.RangeStmt)
 		if !ok || len(r.Body.List) != 1 {
 			return true
@@ -242,52 +375,147 @@ func main() {
 		if !ok || !isIdent(ix.X, M) {
 			return true
 		}
-		v, ok := r.Value.(*ast.Ident)
-		if ok && show(ix.Index) == v.Name+".OutPoint" && isIdent(a.Rhs[0], v.Name) && isIdent(r.X, "eligible") {
-			filled = true
+		x, okx := r.X.(*ast.Ident)
+		if v, ok := r.Value.(*ast.Ident); ok && okx && show(ix.Index) == v.Name+".OutPoint" && isIdent(a.Rhs[0], v.Name) {
+			src = x.Name
+		}
+		// for i := range E { M[E[i].OutPoint] = E[i] }
+		if k, ok := r.Key.(*ast.Ident); ok && okx && r.Value == nil {
+			el := x.Name + "[" + k.Name + "]"
+			if show(ix.Index) == el+".OutPoint" && show(a.Rhs[0]) == el {
+				src = x.Name
+			}
 		}
 		return true
 	})
-	if !filled {
-		die("txToOutputs: the map %s is not filled from the eligible outputs in the recognised way", M)
+	return src
+}
+
+func main() {
+	if len(os.Args) != 2 {
+		die("usage: extract-c06 <repo>")
 	}
-	// `eligible` must come from findEligibleOutputs
-	fromFind := false
+	dir := filepath.Join(os.Args[1], "wallet")
+	pkgs, err := parser.ParseDir(fset, dir, func(fi os.FileInfo) bool {
+		return !strings.HasSuffix(fi.Name(), "_test.go")
+	}, 0)
+	if err != nil {
+		die("parse %s: %v", dir, err)
+	}
+	pkg := pkgs["wallet"]
+	if pkg == nil {
+		die("%s: package wallet not found", dir)
+	}
+	var names []string
+	for n := range pkg.Files {
+		names = append(names, n)
+	}
+	sort.Strings(names)
+	for _, n := range names {
+		for _, d := range pkg.Files[n].Decls {
+			if fd, ok := d.(*ast.FuncDecl); ok && fd.Body != nil {
+				if _, dup := funcs[fd.Name.Name]; dup {
+					funcs[fd.Name.Name] = nil // ambiguous: never followed
+					continue
+				}
+				funcs[fd.Name.Name] = fd
+			}
+		}
+	}
+	fn := funcs["txToOutputs"]
+	if fn == nil || fn.Recv == nil {
+		die("%s: method txToOutputs not found", dir)
+	}
+	res := result{Form: "none"}
+	no := func(why string) {
+		res.RequiresEligible = fact{Why: why}
+		res.RejectsDuplicates = fact{Why: why}
+		out, _ := json.Marshal(res)
+		fmt.Println(string(out))
+		os.Exit(0)
+	}
+	// the parameter that carries the selection
+	selParam := ""
+	for _, p := range fn.Type.Params.List {
+		if show(p.Type) == "[]wire.OutPoint" {
+			if len(p.Names) != 1 || selParam != "" {
+				no("txToOutputs: expected exactly one []wire.OutPoint parameter")
+			}
+			selParam = p.Names[0].Name
+		}
+	}
+	if selParam == "" {
+		no("txToOutputs: no []wire.OutPoint parameter (explicit selection)")
+	}
+	elig := map[string]bool{}
 	ast.Inspect(fn.Body, func(n ast.Node) bool {
-		a, ok := n.(*ast.AssignStmt)
-		if !ok || len(a.Lhs) != 2 || len(a.Rhs) != 1 || !isIdent(a.Lhs[0], "eligible") {
-			return true
-		}
-		if call, ok := a.Rhs[0].(*ast.CallExpr); ok {
-			if sel, ok := call.Fun.(*ast.SelectorExpr); ok && sel.Sel.Name == "findEligibleOutputs" {
-				fromFind = true
+		if a, ok := n.(*ast.AssignStmt); ok && len(a.Rhs) == 1 && len(a.Lhs) >= 1 {
+			if call, ok := a.Rhs[0].(*ast.CallExpr); ok && calleeName(call) == "findEligibleOutputs" {
+				if id, ok := a.Lhs[0].(*ast.Ident); ok {
+					elig[id.Name] = true
+				}
 			}
 		}
 		return true
 	})
-	if !fromFind {
-		die("txToOutputs: `eligible` is not the result of findEligibleOutputs")
+	sites := findSites(fn, selParam, elig, []string{"txToOutputs"}, 3)
+	if len(sites) != 1 {
+		no(fmt.Sprintf("expected exactly one function ranging over the selection %s (txToOutputs or a callee of the package), found %d", selParam, len(sites)))
 	}
-	res.RequiresEligible = true
-	res.Map = M
+	st := sites[0]
+	loops := rangesOver(st.fd, st.sel)
+	if len(loops) != 1 {
+		no(fmt.Sprintf("%s: expected exactly one loop over %s, found %d", st.fd.Name.Name, st.sel, len(loops)))
+	}
+	loop := loops[0]
+	res.Loop = pos(loop)
+	res.Func = strings.Join(st.chain, " -> ")
+	li := analyseLoop(loop, st.sel)
+	res.Map = li.M
+	if len(li.unknown) > 0 {
+		no("statement in the selection loop not recognised: " + strings.Join(li.unknown, "; "))
+	}
+	if !li.sawLookup || !li.sawMiss || !li.sawAppend {
+		no(fmt.Sprintf("%s: selection loop lacks lookup (%v), refusal of a miss (%v) or accumulation (%v)",
+			res.Loop, li.sawLookup, li.sawMiss, li.sawAppend))
+	}
+	// M must be filled from the eligible outputs
+	src := filledFrom(st.fd, li.M)
 	switch {
-	case deleteM:
-		res.RejectsDuplicates, res.Form = true, "delete-from-eligible-map"
+	case src == "":
+		res.RequiresEligible = fact{Why: fmt.Sprintf("%s: the map %s is not filled from the eligible outputs in a recognised way", st.fd.Name.Name, li.M)}
+	case st.eligible[src] || fromFind(st.fd, src):
+		res.RequiresEligible = fact{OK: true, Value: true,
+			Why: fmt.Sprintf("%s: a miss in %s (filled from %s = findEligibleOutputs) returns an error", res.Loop, li.M, src)}
 	default:
-		for s := range seenTest {
-			if s != M && seenSet[s] {
-				res.RejectsDuplicates, res.Form = true, "seen-set"
+		res.RequiresEligible = fact{Why: fmt.Sprintf("%s: %s (source of the map %s) is not known to be the result of findEligibleOutputs", st.fd.Name.Name, src, li.M)}
+	}
+	// duplicates
+	switch {
+	case li.deleteM:
+		res.RejectsDuplicates, res.Form = fact{OK: true, Value: true, Why: "delete(" + li.M + ", " + li.K + ") after the lookup"}, "delete-from-eligible-map"
+	default:
+		bad := ""
+		hit := ""
+		for s := range li.seenTest {
+			if s != li.M && li.seenSet[s] {
+				hit = s
+			} else {
+				bad = fmt.Sprintf("%s: test on %s[%s] without the matching insertion", res.Loop, s, li.K)
 			}
 		}
-		for s := range seenTest {
-			if !(s != M && seenSet[s]) {
-				die("%s: test on %s[%s] without the matching insertion", res.Loop, s, K)
+		for s := range li.seenSet {
+			if !li.seenTest[s] {
+				bad = fmt.Sprintf("%s: insertion into %s[%s] without the matching test", res.Loop, s, li.K)
 			}
 		}
-		for s := range seenSet {
-			if !seenTest[s] {
-				die("%s: insertion into %s[%s] without the matching test", res.Loop, s, K)
-			}
+		switch {
+		case bad != "":
+			res.RejectsDuplicates = fact{Why: bad}
+		case hit != "":
+			res.RejectsDuplicates, res.Form = fact{OK: true, Value: true, Why: "seen-set " + hit}, "seen-set"
+		default:
+			res.RejectsDuplicates = fact{OK: true, Value: false, Why: "no duplicate test in the loop"}
 		}
 	}
 	out, _ := json.Marshal(res)
